@@ -47,7 +47,8 @@ THEOREMS = [
     "RefineLmGeo.diameter_refines", "RefineLmGeo.rallPowerD_refines", "RefineLmGeo.rallPowerD_not_bif", "RefineLmGeo.rallPowerD_root",
     "RefineLmGeo.pk2_refines", "RefineLmGeo.bifVectorLocal_refines", "RefineLmGeo.bifVectorLocal_not_bif", "RefineLmGeo.bifAmplLocal_refines",
     "RefineLmGeo.pathLength_refines", "RefineLmGeo.branchPathlength_refines", "RefineLmGeo.contraction_refines", "RefineLmGeo.taper1_refines",
-    "RefineLmGeo.taper2_refines",
+    "RefineLmGeo.taper2_refines", "RefineLmGeo.branch_last", "RefineLmGeo.bifVectorRemote_refines", "RefineLmGeo.bifAmplRemote_refines",
+    "RefineLmGeo.bifVectorRemote_not_bif", "C10.generated_bif_ampl_remote",
     "C10.generated_path_distance", "C10.generated_euc_distance", "C10.generated_diameter", "C10.generated_rall_power_d", "C10.generated_pk_2",
     "C10.generated_bif_ampl_local", "C10.generated_branch_measures", "C10.generated_contraction_of_node_branch",
 ]
@@ -1884,7 +1885,7 @@ class _SumSqNorm:
 
 
 LMGEO_NODE = ["path_distance", "euc_distance", "diameter"]
-LMGEO_BIF = ["rall_power_d", "pk_2", "bif_vector_local", "bif_ampl_local"]
+LMGEO_BIF = ["rall_power_d", "pk_2", "bif_vector_local", "bif_ampl_local", "bif_vector_remote", "bif_ampl_remote"]
 LMGEO_BRANCH = ["branch_pathlength", "contraction", "taper_1", "taper_2"]
 
 
@@ -1954,6 +1955,8 @@ class LmGeo(Suite):
             res["pk_2"] = [_lg_val(lambda: lm.pk_2(t.node(i))) for i in range(n)]
             res["bif_vector_local"] = [_lg_val(lambda: lm._bif_vector_local(t.node(i))) for i in range(n)]
             res["bif_ampl_local"] = [_lg_val(lambda: lm.bif_ampl_local(t.node(i))) for i in range(n)]
+            res["bif_vector_remote"] = [_lg_val(lambda: lm._bif_vector_remote(t.node(i))) for i in range(n)]
+            res["bif_ampl_remote"] = [_lg_val(lambda: lm.bif_ampl_remote(t.node(i))) for i in range(n)]
             brs = t.get_branches()
             res["branches"] = [[int(x) for x in b.origin_id()] for b in brs]
             res["branch_pathlength"] = [_lg_val(lambda: lm.branch_pathlength(b)) for b in brs]
@@ -2009,6 +2012,8 @@ class LmGeo(Suite):
         out.append((f"{g} what=pk_2 nodes={nodes}", scal(res["pk_2"], False)))
         out.append((f"{g} what=bif_vector_local nodes={nodes}", vecs(res["bif_vector_local"])))
         out.append((f"{g} what=bif_ampl_local nodes={nodes}", ampl(res["bif_ampl_local"])))
+        out.append((f"{g} what=bif_vector_remote nodes={nodes}", vecs(res["bif_vector_remote"])))
+        out.append((f"{g} what=bif_ampl_remote nodes={nodes}", ampl(res["bif_ampl_remote"])))
         out += [(f"{g} what={w}", scal(res[w], w in ("branch_pathlength", "contraction"))) for w in LMGEO_BRANCH]      # taper_1 / taper_2 are float32 quotients
         return out
 
@@ -2039,6 +2044,15 @@ class LmGeo(Suite):
             ks = kids.get(i, [])
             wv = [[float(xyz[c][k] - xyz[i][k]) for k in range(3)] for c in ks] if len(ks) == 2 else "E"
             wd = [[2.0 * r[pids[i]]], [2.0 * r[ks[0]]], [2.0 * r[ks[1]]]] if len(ks) == 2 and pids[i] != -1 else "E"
+            def far(c):
+                while len(kids.get(c, [])) == 1:
+                    c = kids[c][0]
+                return c
+            wr = [[float(xyz[far(c)][k] - xyz[i][k]) for k in range(3)] for c in ks] if len(ks) == 2 else "E"
+            if res["bif_vector_remote"][i] != wr:
+                out.append(("lmgeo-bifurcation-remote", f"node {i}: _bif_vector_remote {res['bif_vector_remote'][i]}; (end of the child's branch − node) vectors {wr} "
+                                                        f"(pids={pids})"))
+                break
             if res["bif_vector_local"][i] != wv or res["rall_power_d"][i] != wd:
                 out.append(("lmgeo-bifurcation", f"node {i}: _bif_vector_local {res['bif_vector_local'][i]} / _rall_power_d {res['rall_power_d'][i]}; "
                                                  f"child − node vectors {wv}, diameters (parent, children) {wd} (pids={pids})"))
